@@ -125,7 +125,10 @@ def _task(arg):
         acc.add("base_encodings")
         judge_input(ws, enc, "base", None, acc, (idx, 1 + cost, len(seen), 0))
         crit = lay.critical_offsets()
-        offsets = None if (cost == 0 or cfg["all_offsets"]) else crit
+        # all offsets for the base instance and (thorough) for every instance up to 1 KiB; the instances that carry a
+        # 4 KiB / 70 KB unknown-tag payload are mutated at their layout-critical offsets only
+        tag_pattern = any(str(e[0]).endswith("<tags>") for e in edits)  # explicit defaults / unknown tags: critical offsets
+        offsets = None if (cost == 0 or (cfg["all_offsets"] and len(enc) <= 1024 and not tag_pattern)) else crit
         m = 0
         for fault, data in streams.single_mutations(enc, offsets):
             m += 1
@@ -191,7 +194,7 @@ def run_c10(tier):
         f"over {{00,01,02,7f,80,81,fe,ff}} and of length <= {5 if tier == 'quick' else 9} over {{00,01,ff}}; (b) for every instance within k<=1 deviations (reference "
         "encoding, strings <= 130 bytes): every single-byte overwrite from {00,01,7f,80,ff,b^80,b^01,b+1}, "
         "every single deletion, every single insertion from {00,01,80,ff} - at all offsets for the base "
-        "instance" + (" and for all k=1 instances" if cfg["all_offsets"] else
+        "instance" + (" and for all k=1 instances up to 1 KiB that deviate in a value (not in a tagged-section pattern)" if cfg["all_offsets"] else
                       ", at the layout-critical offsets (length prefixes, counts, tags, sizes, markers) for k=1 instances")
         + ("; (c) every pair of overwrites on the layout-critical offsets of the base instance" if cfg["pairs"] else "")
         + "; (d) every length / count / tag / size / marker prefix of every such instance (quick: of one instance per distinct layout shape) replaced as a whole by hostile encodings "
